@@ -74,7 +74,7 @@ fn main() {
             let n: u64 = args.get(2).and_then(|s| s.parse().ok()).unwrap_or(300);
             let mut bad = 0;
             for (engine, variant, scale) in [("e3", "", 4), ("e1", "l1", 2), ("e1", "l2", 2), ("e1", "c13", 2), ("e1", "c08", 2),
-                ("e2", "c18", 1), ("e2", "c18f", 1), ("e2", "c17", 1), ("e2", "c08", 1), ("e2", "c13", 1), ("e2", "arte", 1)] {
+                ("e2", "c18", 1), ("e2", "c18f", 1), ("e2", "c17", 1), ("e2", "c08", 1), ("e2", "c13", 1), ("e2", "arte", 1), ("e2", "c14", 1)] {
                 let cfg = ctx.worker_cfg(false);
                 let a = sim::run_collect(&cfg, engine, variant, ctx.verif_seed, n * scale, 16);
                 let b = sim::run_collect(&cfg, engine, variant, ctx.verif_seed, n * scale, 1.max(ctx.workers / 8));
